@@ -174,6 +174,22 @@ CHECKS = {
         note=('Auxiliary constraints are generated loose on the whole box (assumption exported per case), so the API-exposed multipliers form the complete certificate. '
               'Identities, not values, are compared (25-30% of validated vertices are degenerate). OR-Tools returns None + warning (recorded, conformant). Violation only '
               'beyond 10x (solver tolerance + rounding bound). Known finding: dual() of 2-D constraints/bounds is flattened.')),
+    'C15': dict(
+        level='model_checking',
+        technique='TLC-verified rewrite table (Rewrite.tla: DenotInvariant on every reachable presentation) + TLC-exported orbits replayed into rsome.ro / rsome.dro; relational verdict along orbit edges and against the exact grid optimum',
+        design_ref='DESIGN.md 5/C15, 2.7',
+        text=('Rewrite.tla defines a presentation = a RoSem program (1-/2-row constraints incl. 2-row array constraints, six polytope sets, decision rules, '
+              'integer/continuous, min/max/minmax/maxmin) + one choice per element of how it is written; Present() is the syntax handed to the library, Meaning() '
+              'its denotation computed from the presented text on a grid wider than the box; TLC checks GridOptOf(Meaning(Present)) = RoSem.GridOpt exhaustively '
+              'for words <=3/4 on a feature-covering sample and on random words <=3/5 over the family (13 rewrites: objective negation, declaration/statement/'
+              'objective order, a<=b | -b<=-a | b>=a, equality | two inequalities, terms moved across, constant first, rescaling 1,2,1/2,3, array | loop, box as '
+              'Bounds/entry Bounds/linear rows/inf-norm/abs, set as list/args/tuple/generator/mixed/nested, ro | dro(1) with/without E()). Each exported orbit '
+              'member is rendered literally and solved; neighbouring members (one rewrite apart) must agree in value (2e-6 rel, x10 margin, reproduced with a '
+              'second solver), solvability and not raising; every member must satisfy the C02 relation with the grid optimum.'),
+        note=('Trusted: TLC, RoSem oracle, ro_catalogue.py. Bounded: 2 decisions + 1 rule, 2 random components, <=2 constraints, symmetric box only, polytope sets '
+              '{1,2,3,7,9,16}. One solver per orbit; SciPy MILP is not used on integer programs without a feasible grid point (HiGHS presolve does not return), '
+              'remaining hangs are recorded as inconclusive. Nested lists in ro sets are a named unsupported spelling. One defect repaired (dro equality split '
+              'lost .ambset).')),
     'C16': dict(
         level='model_checking',
         technique='TLC model checking of LpFormat.tla (program generator + writer transcription + ideal token/cell acceptors) + replay of generated programs into rsome.lp/socp/ro + batch TLC validation of the lexed lp_export()/show() streams + read-back of to_lp() files with gurobipy',
